@@ -4,10 +4,13 @@ import oracles_exec as ox
 from common import proof_stage
 from props.graphfacts import conclude, replay, run_graph_property  # noqa: F401
 
-THEOREMS = ["Rva.meetOver_sound", "Rva.meet_sound_left", "Rva.meet_sound_right", "Rva.erase_sound", "Rva.fold_const_sound", "Rva.fold_imm_sound", "Rva.fold_ors_sound", "Rva.fold_ors_right_sound", "Rva.operate_rv32",
-            "Rva.plain_transfer_sound", "Rva.mathResult_sound", "Rva.genReg_sound", "Rva.mathOpOf_spec",
-            "Rva.scalarOpOf_spec", "Rva.plain_regOut", "Rva.ecall_table_matches_rars",
-            "Rva.quiet_transfer_sound", "Rva.exec_sound", "Rva.goodFactsB_sound"]
+THEOREMS = ["Rva.meetOver_sound", "Rva.meet_sound_left", "Rva.meet_sound_right", "Rva.erase_sound",
+            "Rva.fold_const_sound", "Rva.fold_imm_sound", "Rva.fold_ors_sound", "Rva.fold_ors_right_sound",
+            "Rva.operate_rv32", "Rva.plain_transfer_sound", "Rva.mathResult_sound", "Rva.genReg_sound",
+            "Rva.mathOpOf_spec", "Rva.scalarOpOf_spec", "Rva.rules_sound", "Rva.zeroConsts_sound",
+            "Rva.ecall_table_matches_rars", "Rva.quiet_transfer_sound", "Rva.exec_sound", "Rva.goodFactsB_sound",
+            "Rva.call_transfer_sound", "Rva.ecall_transfer_sound", "Rva.ecallKills_known",
+            "Rva.ecallKill_covers_rars", "Rva.entry_transfer_sound", "Rva.exec_sound_full"]
 
 
 def oracle(src, blk, rng):
@@ -25,7 +28,7 @@ def oracle(src, blk, rng):
 
 
 def run(res, tier, seed):
-    proof_ok = proof_stage(res, "Rva.Proofs.C01Path", THEOREMS, extra_modules=["Rva.Proofs.C01Transfer", "Rva.Proofs.C01", "Rva.Proofs.C08", "Rva.Proofs.Tables"])
+    proof_ok = proof_stage(res, "Rva.Proofs.C01Calls", THEOREMS, extra_modules=["Rva.Proofs.C01Path", "Rva.Proofs.C01Transfer", "Rva.Proofs.C01", "Rva.Proofs.C08", "Rva.Proofs.Tables"])
     res.cov["rule"] = ("generated convention-respecting programs + corpus; 4 concrete RV32IM executions per "
                        "program from random initial states; every constant / address / entry-relative claim the "
                        "real analyzer attached to each reached node (registers and stack slots) is evaluated "
